@@ -97,6 +97,16 @@ def _cmp_common(h, a, b, d, tag=""):
         h.eq(f"{tag}get_parameter({i})", np.asarray(b.get_parameter(i, burn=0)), np.asarray(a.get_parameter(i, burn=0)))
 
 
+def _cmp_numeric_fields(h, tag, p, q):
+    """every numeric scalar field two state objects both carry (saved vs loaded)"""
+    for name in sorted(set(vars(p)) & set(vars(q))):
+        u, v = vars(p)[name], vars(q)[name]
+        if callable(u) or isinstance(u, (bool, str, np.ndarray, list, tuple, dict)) or u is None:
+            continue
+        if isinstance(u, (int, float, np.integer, np.floating)) or type(u).__name__ in ("SymReal", "SymInt"):
+            h.eq(f"{tag} field '{name}'", v, u)
+
+
 Q = [dict(cls="gibbs", d=2, hist=1, limits=False), dict(cls="gibbs", d=1, hist=2, limits=True), dict(cls="metropolis", d=2, hist=2, limits=False)]
 T = [dict(cls="gibbs", d=2, hist=2, limits=True)]
 
@@ -132,12 +142,7 @@ def gibbs_save_load_continue(h, cls, d, hist, limits):
                 h.eq(f"loaded: boundaries {i}", np.array([q.lower, q.upper], dtype=object), np.array([p.lower, p.upper], dtype=object))
             # every other numeric field the parameter object carries (growth factor, target rate, check schedule ...):
             # fields only consulted at a later proposal-width check are state all the same
-            for name in sorted(set(vars(p)) & set(vars(q))):
-                u, v = vars(p)[name], vars(q)[name]
-                if callable(u) or isinstance(u, (bool, str, np.ndarray, list, tuple, dict)) or u is None:
-                    continue
-                if isinstance(u, (int, float, np.integer, np.floating)) or type(u).__name__ in ("SymReal", "SymInt"):
-                    h.eq(f"loaded: parameter {i} field '{name}'", v, u)
+            _cmp_numeric_fields(h, f"loaded: parameter {i}", p, q)
         # identical continuation under identical random draws
         dr = Draws(h, "chain")
         nd = 1 if limits else 2
@@ -197,6 +202,8 @@ def pca_save_load_continue(h, d, bounded, hist, updated):
         _cmp_common(h, a, b, d, "loaded: ")
         h.eq("loaded: temperature", b.inv_temp, a.inv_temp)
         h.eq("loaded: directions", np.array(b.directions), np.array(a.directions))
+        for i, (p, q) in enumerate(zip(a.params, b.params)):
+            _cmp_numeric_fields(h, f"loaded: parameter {i}", p, q)
         if updated:
             h.eq("loaded: covariance estimate", np.asarray(b.covar), np.asarray(a.covar))
             h.eq("loaded: convergence history", np.array(b.angles_history), np.array(a.angles_history))
@@ -253,6 +260,7 @@ def hmc_save_load_continue(h, d, mass, bounded):
                     h.eq(f"loaded: tuner item '{key}' has the saved value", vb, va)
         h.eq("loaded: temperature", b.inv_temp, a.inv_temp)
         h.eq("loaded: step size", b.ES.epsilon, a.ES.epsilon)
+        _cmp_numeric_fields(h, "loaded: step-size tuner", a.ES, b.ES)
         if bounded:
             h.eq("loaded: bounds", np.concatenate([b.bounds.lower, b.bounds.upper]), np.concatenate([a.bounds.lower, a.bounds.upper]))
         h.same("loaded: trajectory integrator matches the bounds", b.run_leapfrog == (b.bounded_leapfrog if bounded else b.standard_leapfrog), True)
